@@ -17,6 +17,7 @@ chk(int rv, const char *what, bool allow_timeout = false)
 	if (rv == 0)
 		return 0;
 	bool hit = sim_alloc_fault_hit() > 0;
+	sim_event("%s -> %d (%s)", what, rv, nng_strerror((nng_err) rv));
 	if (!hit)
 		h_fatal("%s failed with %d (%s) without any injected fault", what, rv, nng_strerror((nng_err) rv));
 	if (rv == NNG_ENOMEM) {
@@ -95,10 +96,18 @@ exchange(const Proto &pr, nng_socket a, nng_socket b, uint32_t serial)
 			VIOL("stuck_after_enomem", "%s exchange %u does not complete after a single allocation failure", pr.name,
 			    serial);
 		uint32_t got;
-		if (chk(send_tag(a, serial + (uint32_t) attempt * 1000), "nng_sendmsg", true) != 0)
+		uint32_t want = serial + (uint32_t) attempt * 1000;
+		if (chk(send_tag(a, want), "nng_sendmsg", true) != 0)
 			continue;
-		int rv = chk(recv_tag(b, &got), "nng_recvmsg", true);
-		if (rv != 0)
+		int rv;
+		// earlier attempts (or their retransmissions) may still be queued
+		for (int drain = 0; drain < 40; drain++) {
+			rv = chk(recv_tag(b, &got), "nng_recvmsg", true);
+			if (rv != 0 || got == want)
+				break;
+			sim_probe("c20_stale_message_skipped");
+		}
+		if (rv != 0 || got != want)
 			continue;
 		if (pr.style == 1) {
 			if (chk(send_tag(b, got), "nng_sendmsg(reply)", true) != 0)
@@ -110,8 +119,13 @@ exchange(const Proto &pr, nng_socket a, nng_socket b, uint32_t serial)
 		} else if (pr.style == 2) {
 			if (chk(send_tag(b, got), "nng_sendmsg(back)", true) != 0)
 				continue;
-			uint32_t back;
-			if (chk(recv_tag(a, &back), "nng_recvmsg(back)", true) != 0)
+			uint32_t back = ~0u;
+			for (int drain = 0; drain < 40; drain++) {
+				rv = chk(recv_tag(a, &back), "nng_recvmsg(back)", true);
+				if (rv != 0 || back == want)
+					break;
+			}
+			if (rv != 0 || back != want)
 				continue;
 		}
 		return;
@@ -166,7 +180,19 @@ sp_run(Params *p)
 				continue;
 			}
 			nng_msg *q = NULL;
-			if (chk(nng_ctx_recvmsg(cb, &q, 0), "nng_ctx_recvmsg", true) != 0)
+			bool     fresh = false;
+			for (int drain = 0; drain < 40 && !fresh; drain++) {
+				if (chk(nng_ctx_recvmsg(cb, &q, 0), "nng_ctx_recvmsg", true) != 0)
+					break;
+				Tag t = tag_parse((uint8_t *) nng_msg_body(q), nng_msg_len(q));
+				if (t.ok && t.stream == 1 && t.serial == (uint32_t) attempt) {
+					fresh = true;
+				} else {
+					nng_msg_free(q);
+					q = NULL;
+				}
+			}
+			if (!fresh)
 				continue;
 			rv = chk(nng_ctx_sendmsg(cb, q, 0), "nng_ctx_sendmsg(reply)", true);
 			if (rv != 0) {
@@ -300,8 +326,13 @@ static void
 http_handler_fn(nng_http *conn, void *arg, nng_aio *aio)
 {
 	(void) arg;
+	nng_err rv = nng_http_copy_body(conn, "hello", 5);
+	if (rv != NNG_OK) {
+		// what a well-behaved handler does: report the failure
+		nng_aio_finish(aio, rv);
+		return;
+	}
 	nng_http_set_status(conn, NNG_HTTP_STATUS_OK, NULL);
-	nng_http_copy_body(conn, "hello", 5);
 	nng_aio_finish(aio, NNG_OK);
 }
 
